@@ -94,10 +94,15 @@ func (w *c08World) hookDataMsg(signer sim.Account, good bool, l2denom string, wi
 		amt = math.NewInt(1 << 62).MulRaw(4) // overspend: the hook fails
 	}
 	var msg sdk.Msg = banktypes.NewMsgSend(signer.Addr, w.tc.L2.Users[5].Addr, sdk.NewCoins(sdk.NewCoin(l2denom, amt)))
+	msgs := []sdk.Msg{msg}
 	if withdraw {
-		msg = opchildtypes.NewMsgInitiateTokenWithdrawal(signer.String(), w.tc.L1.Users[6].String(), sdk.NewCoin(l2denom, amt))
+		msgs = []sdk.Msg{opchildtypes.NewMsgInitiateTokenWithdrawal(signer.String(), w.tc.L1.Users[6].String(), sdk.NewCoin(l2denom, math.NewInt(1)))}
+		if !good {
+			// the withdrawal would succeed, the transfer after it cannot be paid: the whole hook must leave nothing behind
+			msgs = append(msgs, msg)
+		}
 	}
-	bz, err := l2.SignTx(signer, n, s, sim.L2ChainID, 300_000, msg)
+	bz, err := l2.SignTx(signer, n, s, sim.L2ChainID, 300_000, msgs...)
 	if err != nil {
 		panic(err)
 	}
@@ -113,7 +118,7 @@ func (w *c08World) opL1Deposit() {
 	toStr := to.String()
 	var data []byte
 	kind := "good"
-	switch w.rng.Intn(11) {
+	switch w.rng.Intn(12) {
 	case 0:
 		toStr, kind = mon.Pick(w.rng, []string{"0xnotbech32", tc.L2.L2.Authority, "init1zzz"}), "bad-recipient"
 	case 1:
@@ -126,6 +131,8 @@ func (w *c08World) opL1Deposit() {
 		data, kind = w.rng.Bytes(20), "garbage-hook"
 	case 5:
 		data, kind = w.hookDataMsg(to, true, ref.L2Denom(tc.Bridge, d), true), "withdrawing-hook"
+	case 7:
+		data, kind = w.hookDataMsg(to, false, ref.L2Denom(tc.Bridge, d), true), "withdraw-then-fail-hook"
 	case 6:
 		// a blocked module account that already holds bridged tokens (fees are paid into the fee collector), with hook data
 		fc := authtypes.NewModuleAddress(authtypes.FeeCollectorName)
